@@ -450,4 +450,61 @@ theorem sum_relCount_le (g : Star) (hwf : NamesWF g) : sumTo g.workers.length (r
     (fun i _ => heq i)]
   exact this
 
+/-! ## round robin, and a decidable test for `NamesWF` (for concrete instances) -/
+
+/-- `k` rounds over the workers `0 … W-1` -/
+def roundRobin (W k : Nat) : List Nat := (List.replicate k (List.range W)).flatten
+
+theorem roundRobin_length (W k : Nat) : (roundRobin W k).length = k * W := by
+  simp [roundRobin]
+
+theorem roundRobin_count {W w : Nat} (hw : w < W) : ∀ (k : Nat), k ≤ (roundRobin W k).count w
+  | 0 => Nat.zero_le _
+  | k + 1 => by
+    have ih := roundRobin_count hw k
+    have h1 : 0 < (List.range W).count w := List.count_pos_iff.mpr (List.mem_range.mpr hw)
+    simp only [roundRobin, List.replicate_succ, List.flatten_cons, List.count_append] at ih ⊢
+    omega
+
+/-- decidable form of `NamesWF`: on the workers and nodes of the graph the substring test is ownership, and every
+owner is a worker of the graph -/
+def namesOk (g : Star) : Bool :=
+  ((List.range g.workers.length).all fun w => (List.range g.nodes.length).all fun n =>
+    relevant g w n == (match g.nodes[n]? with | some nd => nd.owner == w | none => false)) &&
+  g.nodes.all (fun nd => nd.owner < g.workers.length)
+
+theorem namesWF_of_namesOk {g : Star} (h : namesOk g = true) : NamesWF g := by
+  simp only [namesOk, Bool.and_eq_true, List.all_eq_true, List.mem_range, beq_iff_eq, decide_eq_true_eq] at h
+  obtain ⟨h1, h2⟩ := h
+  intro w n
+  by_cases hn : n < g.nodes.length
+  · have hnd : g.nodes[n]? = some g.nodes[n] := List.getElem?_eq_getElem hn
+    by_cases hw : w < g.workers.length
+    · have := h1 w hw n hn
+      rw [this, hnd]
+      simp only [beq_iff_eq, owns, hnd, Option.some.injEq]
+      constructor
+      · intro e; exact ⟨_, rfl, e⟩
+      · rintro ⟨nd, rfl, e⟩; exact e
+    · have hrel : relevant g w n = false := by
+        have : g.workers[w]? = none := List.getElem?_eq_none (by omega)
+        simp [relevant, this]
+      rw [hrel]
+      constructor
+      · intro e; cases e
+      · rintro ⟨nd, hnd', e⟩
+        rw [hnd] at hnd'
+        cases hnd'
+        have := h2 _ (List.getElem_mem hn)
+        omega
+  · have hnone : g.nodes[n]? = none := List.getElem?_eq_none (by omega)
+    have hrel : relevant g w n = false := by
+      simp only [relevant, hnone]
+      split <;> simp_all
+    rw [hrel]
+    constructor
+    · intro e; cases e
+    · rintro ⟨nd, hnd', _⟩
+      rw [hnone] at hnd'; cases hnd'
+
 end I2N.Tools
